@@ -2,7 +2,9 @@
 abstract (type, value) cases and records events for PaneTrace.tla. Holds no expected values."""
 from __future__ import annotations
 
+import collections
 import copy
+import types
 import warnings
 
 import pane
@@ -181,3 +183,153 @@ def signature(clause: str, c: Case, ev: dict) -> dict:
     if isinstance(out, dict):
         sig['outcome'] = out['k'] + (':' + out['c'] if out['k'] == 'exc' else '')
     return sig
+
+
+# ---------------------------------------------------------------------------------------
+# further event families
+def _exc(e: BaseException) -> str:
+    return 'exc:' + type(e).__name__
+
+
+def ev_passes(ident: int, c: Case) -> dict:
+    """C03: the two passes of the documented extension interface, separately, and convert()."""
+    from pane.errors import ErrorNode
+    cv = make_converter(c.ty)
+    try:
+        cv.try_convert(c.val)
+        fast = 'ok'
+    except ParseInterrupt:
+        fast = 'interrupt'
+    except Exception as e:  # noqa
+        fast = _exc(e)
+    try:
+        node = cv.collect_errors(c.val)
+        diag = 'none' if node is None else 'tree' if isinstance(node, ErrorNode) else 'junk'
+    except Exception as e:  # noqa
+        diag = _exc(e)
+    tree = 'F'
+    try:
+        cv.convert(c.val)
+        cres = 'ok'
+    except ConvertError as e:
+        cres = 'ConvertError'
+        tree = 'T' if isinstance(getattr(e, 'tree', None), ErrorNode) else 'F'
+    except RuntimeError:
+        cres = 'RuntimeError'
+    except Exception as e:  # noqa
+        cres = _exc(e)
+    return {'id': ident, 'op': 'passes', 'ty': c.T, 'val': c.v, 'fast': fast, 'diag': diag, 'conv': cres, 'tree': tree,
+            'out': {'k': fast + '/' + diag + '/' + cres}}
+
+
+def snap(o, depth=0):
+    """Deep snapshot: projection plus identity of every container (so that replacing a
+    container by an equal copy, or mutating and restoring, is seen)."""
+    if depth > 12:
+        return ('deep',)
+    if isinstance(o, (list, tuple, collections.deque, vocab.OtherSeq)):
+        return (type(o).__name__, id(o), tuple(snap(x, depth + 1) for x in o))
+    if isinstance(o, (dict, types.MappingProxyType)):
+        return (type(o).__name__, id(o), tuple((snap(k, depth + 1), snap(v, depth + 1)) for k, v in o.items()))
+    if isinstance(o, (set, frozenset)):
+        return (type(o).__name__, id(o), frozenset(snap(x, depth + 1) for x in o))
+    if isinstance(o, bytearray):
+        return ('bytearray', id(o), bytes(o))
+    if isinstance(o, pane.PaneBase):
+        return (type(o).__name__, id(o), tuple((f.name, snap(getattr(o, f.name, None), depth + 1)) for f in type(o).__pane_info__.fields),
+                tuple(sorted(getattr(o, '__pane_set__', ()))))
+    if isinstance(o, float) and o != o:
+        return ('nan',)
+    return (type(o).__name__, o)
+
+
+def ev_snapshot(ident: int, c: Case, api: str = 'from_data') -> dict:
+    """C09: the argument before and after the call, both verdicts."""
+    val = c.val
+    before = snap(val)
+    f = {'from_data': pane.from_data, 'convert': pane.convert}[api]
+    out = outcome(f, val, c.ty)
+    after = snap(val)
+    return {'id': ident, 'op': 'snapshot', 'api': api, 'ty': c.T, 'val': c.v, 'same': 'T' if before == after else 'F',
+            'out': {'k': out['k'] if out['k'] != 'exc' else 'exc', 'c': out.get('c', '')}}
+
+
+def ev_snapshot_convert(ident: int, c: Case) -> dict:
+    return ev_snapshot(ident, c, 'convert')
+
+
+def ev_roundtrip(ident: int, c: Case) -> dict:
+    """C05: x = from_data(v,T); d = into_data(x,T); x2 = from_data(d,T); d2 = into_data(x2,T)."""
+    e = {'id': ident, 'op': 'roundtrip', 'ty': c.T, 'val': c.v}
+    no = {'k': 'skip'}
+    try:
+        x = pane.from_data(c.val, c.ty)
+    except Exception:  # noqa  (the verdict itself is C01's business)
+        e.update(x=no, d=no, x2=no, d2=no, out={'k': 'unconverted'})
+        return e
+    e['x'] = _proj(x)
+    d = _call(pane.into_data, x, c.ty)
+    e['d'] = d[0]
+    e['x2'] = e['d2'] = no
+    if d[0]['k'] == 'ok':
+        x2 = _call(pane.from_data, d[1], c.ty)
+        e['x2'] = x2[0]
+        if x2[0]['k'] == 'ok':
+            e['d2'] = _call(pane.into_data, x2[1], c.ty)[0]
+    e['out'] = {'k': '/'.join(e[k]['k'] for k in ('x', 'd', 'x2', 'd2'))}
+    return e
+
+
+def _proj(x) -> dict:
+    try:
+        return {'k': 'ok', 'x': abstract(x)}
+    except (OutOfVocab, RecursionError):
+        return {'k': 'ok', 'x': {'k': 'alien', 'c': type(x).__name__}}
+
+
+def _call(f, *a):
+    try:
+        r = f(*a)
+    except ConvertError:
+        return ({'k': 'reject'}, None)
+    except Exception as e:  # noqa
+        return ({'k': 'exc', 'c': type(e).__name__}, None)
+    return (_proj(r), r)
+
+
+def ev_fixpoint(ident: int, c: Case) -> dict:
+    """C06: convert(x, T) for x produced by conversion and for an equal natively built object."""
+    e = {'id': ident, 'op': 'fixpoint', 'ty': c.T, 'val': c.v}
+    try:
+        x = pane.from_data(c.val, c.ty)
+        ax = abstract(x)
+    except Exception:  # noqa
+        e.update(x={'k': 'none'}, have='F', out={'k': 'unconverted'}, nat={'k': 'unconverted'}, twice={'k': 'unconverted'})
+        return e
+    e['x'] = ax
+    e['have'] = 'T'
+    e['out'] = outcome(pane.convert, x, c.ty)
+    try:
+        native = native_copy(x)            # rebuilt natively: not an object pane produced
+        e['nat'] = outcome(pane.convert, native, c.ty)
+    except OutOfVocab:
+        e['nat'] = {'k': 'skip'}
+    e['twice'] = outcome(lambda: pane.convert(pane.convert(c.val, c.ty), c.ty))
+    return e
+
+
+def native_copy(x):
+    """An equal object built with ordinary Python constructors (nothing pane returned is reused,
+    except that dataclass instances are made with the unchecked constructor of their class)."""
+    if isinstance(x, pane.PaneBase):
+        kw = {f.name: native_copy(getattr(x, f.name)) for f in type(x).__pane_info__.fields if f.init}
+        return type(x).make_unchecked(**kw)
+    if isinstance(x, (list, tuple, collections.deque)) and type(x) in (list, tuple, collections.deque):
+        return type(x)(native_copy(e) for e in x)
+    if type(x) in (set, frozenset):
+        return type(x)(native_copy(e) for e in x)
+    if type(x) in (dict, collections.OrderedDict, collections.Counter):
+        return type(x)({native_copy(k): native_copy(v) for k, v in x.items()})
+    if type(x) is collections.defaultdict:
+        return collections.defaultdict(x.default_factory, ((native_copy(k), native_copy(v)) for k, v in x.items()))
+    return concretise(abstract(x))
